@@ -71,10 +71,10 @@ Theorem nf_json_of v : nf (json_of v).
 Proof. unfold json_of. apply nf_json_value. lia. Qed.
 
 Lemma nf_dir_json v args : nf (dir_json v args).
-Proof. unfold dir_json. apply nf_bind; [apply nf_json_of|]. intros s. exact I. Qed.
+Proof. unfold dir_json. destruct v as [x|]; [|exact I]. apply nf_bind; [apply nf_json_of|]. intros s. exact I. Qed.
 
 Lemma nf_dir_escape_js v args : nf (dir_escape_js v args).
-Proof. unfold dir_escape_js. apply nf_bind; [apply nf_value_string|]. intros s. exact I. Qed.
+Proof. unfold dir_escape_js. destruct v as [x|]; [|exact I]. apply nf_bind; [apply nf_value_string|]. intros s. exact I. Qed.
 
 (* ---- round ---- *)
 
@@ -127,7 +127,7 @@ Qed.
 
 (* escapeJsString answers OutOfModel only where String() itself does (floats outside the printing domain) *)
 Theorem dir_escape_js_total v args s :
-  value_string v = Ok s -> dir_escape_js v args = Ok (VStr (js_escape is_print_tbl s)).
+  value_string v = Ok s -> dir_escape_js (Some v) args = Ok (Some (VStr (js_escape is_print_tbl s))).
 Proof. intros H. unfold dir_escape_js. rewrite H. reflexivity. Qed.
 
 (* json on a value without floats is total: a string, whatever the value's String() does *)
@@ -175,7 +175,7 @@ Proof.
     + cbn [float_free] in Hf. rewrite forallb_forall in Hf. apply (Hf kx). exact Hx.
 Qed.
 
-Theorem json_total_float_free v args : float_free v = true -> exists s, dir_json v args = Ok (VStr s).
+Theorem json_total_float_free v args : float_free v = true -> exists s, dir_json (Some v) args = Ok (Some (VStr s)).
 Proof.
   intros Hf. unfold dir_json, json_of.
   pose proof (ok_json_value (S (depth v)) v ltac:(lia) Hf) as H.
